@@ -2,11 +2,10 @@ module wzh
 
 go 1.19
 
-require github.com/zerx-lab/wordZero v0.0.0
-
 require (
-	github.com/litao91/goldmark-mathjax v0.0.0-20210217064022-a43cf739a50f // indirect
-	github.com/yuin/goldmark v1.7.8 // indirect
+	github.com/litao91/goldmark-mathjax v0.0.0-20210217064022-a43cf739a50f
+	github.com/yuin/goldmark v1.7.8
+	github.com/zerx-lab/wordZero v0.0.0
 )
 
 replace github.com/zerx-lab/wordZero => /repo
